@@ -1,8 +1,671 @@
 package interp
 
-// cKernels holds the C kernels extracted from cgo preambles (filled by ckernel_llvm.go).
+// Execution of the small C kernels that the Go code calls through cgo
+// (crc32_write in store/crc32.go, find in store/leaf.go): the cgo preamble of
+// the *current* source file is compiled with clang to LLVM IR and the IR is
+// interpreted over the engine's (possibly symbolic) values.
+
+import (
+	"fmt"
+	"go/token"
+	"go/types"
+	"os"
+	"os/exec"
+	"path/filepath"
+	"regexp"
+	"strconv"
+	"strings"
+)
+
 type cKernels struct {
-	funcs map[string]*llFunc
-	src   map[string]string
+	funcs   map[string]*llFunc
+	globals map[string][]value // constant integer tables
+	gwidth  map[string]int
+	Sources []string
 }
-type llFunc struct{}
+
+type llInstr struct {
+	dst  string
+	op   string
+	text string
+	toks []string
+}
+
+type llBlock struct {
+	label  string
+	instrs []llInstr
+}
+
+type llFunc struct {
+	name   string
+	params []string
+	ptypes []string
+	blocks map[string]*llBlock
+	entry  string
+	ret    string
+}
+
+type llptr struct {
+	mem  []value // byte memory (base)
+	off  int
+	glob string // global table name (element index = off)
+}
+
+var preambleRe = regexp.MustCompile(`(?s)/\*(.*?)\*/\s*import "C"`)
+
+// loadCKernels extracts, compiles and parses the kernels in the given Go files.
+func loadCKernels(work string, files []string) (*cKernels, error) {
+	ck := &cKernels{funcs: map[string]*llFunc{}, globals: map[string][]value{}, gwidth: map[string]int{}}
+	os.MkdirAll(work, 0755)
+	for _, f := range files {
+		src, err := os.ReadFile(f)
+		if err != nil {
+			return nil, err
+		}
+		m := preambleRe.FindSubmatch(src)
+		if m == nil {
+			continue
+		}
+		base := strings.TrimSuffix(filepath.Base(f), ".go")
+		cpath := filepath.Join(work, "ck_"+base+".c")
+		lpath := filepath.Join(work, "ck_"+base+".ll")
+		if err := os.WriteFile(cpath, m[1], 0644); err != nil {
+			return nil, err
+		}
+		out, err := exec.Command("clang", "-O1", "-fno-unroll-loops", "-fno-vectorize", "-fno-slp-vectorize", "-S", "-emit-llvm", cpath, "-o", lpath).CombinedOutput()
+		if err != nil {
+			return nil, fmt.Errorf("clang %s: %v\n%s", f, err, out)
+		}
+		ir, err := os.ReadFile(lpath)
+		if err != nil {
+			return nil, err
+		}
+		if err := ck.parse(string(ir)); err != nil {
+			return nil, fmt.Errorf("%s: %v", f, err)
+		}
+		ck.Sources = append(ck.Sources, f)
+	}
+	return ck, nil
+}
+
+var (
+	globRe  = regexp.MustCompile(`^@(\w+) = .*constant \[(\d+) x i(\d+)\] \[(.*)\]`)
+	defRe   = regexp.MustCompile(`^define .*? @(\w+)\((.*)\)`)
+	labelRe = regexp.MustCompile(`^(\w+):`)
+)
+
+func (ck *cKernels) parse(ir string) error {
+	lines := strings.Split(ir, "\n")
+	var cur *llFunc
+	var blk *llBlock
+	for _, ln := range lines {
+		if m := globRe.FindStringSubmatch(ln); m != nil {
+			w, _ := strconv.Atoi(m[3])
+			var vals []value
+			for _, e := range strings.Split(m[4], ",") {
+				f := strings.Fields(strings.TrimSpace(e))
+				if len(f) != 2 {
+					return fmt.Errorf("bad table element %q", e)
+				}
+				n, err := strconv.ParseInt(f[1], 10, 64)
+				if err != nil {
+					return err
+				}
+				vals = append(vals, llConst(w, uint64(n)))
+			}
+			ck.globals[m[1]] = vals
+			ck.gwidth[m[1]] = w
+			continue
+		}
+		if m := defRe.FindStringSubmatch(ln); m != nil {
+			cur = &llFunc{name: m[1], blocks: map[string]*llBlock{}}
+			for _, p := range splitTop(m[2]) {
+				f := strings.Fields(p)
+				if len(f) == 0 {
+					continue
+				}
+				cur.ptypes = append(cur.ptypes, f[0])
+				cur.params = append(cur.params, f[len(f)-1])
+			}
+			// entry block is implicitly numbered after the params
+			cur.entry = strconv.Itoa(len(cur.params))
+			blk = &llBlock{label: cur.entry}
+			cur.blocks[blk.label] = blk
+			continue
+		}
+		if cur == nil {
+			continue
+		}
+		t := strings.TrimSpace(ln)
+		if t == "}" {
+			ck.funcs[cur.name] = cur
+			cur = nil
+			continue
+		}
+		if t == "" || strings.HasPrefix(t, ";") {
+			continue
+		}
+		if m := labelRe.FindStringSubmatch(t); m != nil {
+			blk = &llBlock{label: m[1]}
+			cur.blocks[blk.label] = blk
+			continue
+		}
+		// strip metadata and comments
+		if i := strings.Index(t, ", !"); i >= 0 {
+			t = t[:i]
+		}
+		if i := strings.Index(t, ";"); i >= 0 {
+			t = strings.TrimSpace(t[:i])
+		}
+		in := llInstr{text: t}
+		if strings.HasPrefix(t, "%") {
+			eq := strings.Index(t, " = ")
+			in.dst = t[:eq]
+			t = t[eq+3:]
+		}
+		in.toks = strings.Fields(strings.NewReplacer(",", " ", "(", " ( ", ")", " ) ", "[", " [ ", "]", " ] ").Replace(t))
+		in.op = in.toks[0]
+		blk.instrs = append(blk.instrs, in)
+	}
+	return nil
+}
+
+func splitTop(s string) []string {
+	var out []string
+	depth, start := 0, 0
+	for i, c := range s {
+		switch c {
+		case '(', '[':
+			depth++
+		case ')', ']':
+			depth--
+		case ',':
+			if depth == 0 {
+				out = append(out, s[start:i])
+				start = i + 1
+			}
+		}
+	}
+	if strings.TrimSpace(s[start:]) != "" {
+		out = append(out, s[start:])
+	}
+	return out
+}
+
+func llConst(w int, v uint64) value {
+	switch w {
+	case 1:
+		return v&1 == 1
+	case 8:
+		return uint8(v)
+	case 16:
+		return uint16(v)
+	case 32:
+		return uint32(v)
+	case 64:
+		return v
+	}
+	panic(engineAbort{psInconclusive, fmt.Sprintf("llvm integer width %d", w)})
+}
+
+func llWidth(ty string) int {
+	if strings.HasPrefix(ty, "i") {
+		if n, err := strconv.Atoi(ty[1:]); err == nil {
+			return n
+		}
+	}
+	return 0
+}
+
+func uKind(w int) types.BasicKind {
+	switch w {
+	case 8:
+		return types.Uint8
+	case 16:
+		return types.Uint16
+	case 32:
+		return types.Uint32
+	case 64:
+		return types.Uint64
+	}
+	panic(engineAbort{psInconclusive, fmt.Sprintf("llvm width %d", w)})
+}
+
+func sKind(w int) types.BasicKind {
+	switch w {
+	case 8:
+		return types.Int8
+	case 16:
+		return types.Int16
+	case 32:
+		return types.Int32
+	case 64:
+		return types.Int64
+	}
+	panic(engineAbort{psInconclusive, fmt.Sprintf("llvm width %d", w)})
+}
+
+// toKind reinterprets/extends integer v as kind k (from its own kind).
+func toKind(v value, k types.BasicKind) value {
+	if s, ok := v.(sv); ok {
+		return symConvInt(s, k)
+	}
+	sk, raw, ok := concKind(v)
+	if !ok {
+		panic(engineAbort{psEngineError, fmt.Sprintf("toKind %T", v)})
+	}
+	if kindSigned(sk) {
+		w := kindWidth(sk)
+		raw = uint64(int64(raw<<uint(64-w)) >> uint(64-w))
+	} else {
+		raw &= maskW(kindWidth(sk))
+	}
+	return mkConc(k, raw)
+}
+
+func maskW(w int) uint64 {
+	if w >= 64 {
+		return ^uint64(0)
+	}
+	return 1<<uint(w) - 1
+}
+
+type llFrame struct {
+	i    *interpreter
+	fr   *frame
+	ck   *cKernels
+	regs map[string]value
+}
+
+func (lf *llFrame) operand(ty, tok string) value {
+	if strings.HasPrefix(tok, "%") {
+		v, ok := lf.regs[tok]
+		if !ok {
+			panic(engineAbort{psEngineError, "llvm: undefined register " + tok})
+		}
+		return v
+	}
+	if strings.HasPrefix(tok, "@") {
+		return llptr{glob: tok[1:]}
+	}
+	if tok == "null" {
+		return llptr{}
+	}
+	if tok == "true" {
+		return true
+	}
+	if tok == "false" {
+		return false
+	}
+	n, err := strconv.ParseInt(tok, 10, 64)
+	if err != nil {
+		panic(engineAbort{psInconclusive, "llvm: operand " + tok})
+	}
+	return llConst(llWidth(ty), uint64(n))
+}
+
+// callC runs a C kernel function.
+func (ck *cKernels) call(fr *frame, name string, args []value) value {
+	f := ck.funcs[name]
+	if f == nil {
+		panic(engineAbort{psInconclusive, "C function not in the extracted kernels: " + name})
+	}
+	lf := &llFrame{i: fr.i, fr: fr, ck: ck, regs: map[string]value{}}
+	for k, p := range f.params {
+		lf.regs[p] = args[k]
+	}
+	cur, prev := f.entry, ""
+	for {
+		blk := f.blocks[cur]
+		if blk == nil {
+			panic(engineAbort{psEngineError, "llvm: no block " + cur})
+		}
+		// phis first (parallel)
+		np := 0
+		tmp := map[string]value{}
+		for _, in := range blk.instrs {
+			if in.op != "phi" {
+				break
+			}
+			np++
+			// phi ty [ v, %lbl ] [ v, %lbl ]
+			ty := in.toks[1]
+			found := false
+			for k := 2; k+4 < len(in.toks)+1; k++ {
+				if in.toks[k] == "[" {
+					v, lbl := in.toks[k+1], strings.TrimPrefix(in.toks[k+2], "%")
+					if lbl == prev {
+						tmp[in.dst] = lf.operand(ty, v)
+						found = true
+					}
+				}
+			}
+			if !found {
+				panic(engineAbort{psEngineError, "llvm: phi without incoming edge from " + prev})
+			}
+		}
+		for k, v := range tmp {
+			lf.regs[k] = v
+		}
+		next := ""
+		for _, in := range blk.instrs[np:] {
+			fr.i.steps++
+			if fr.i.steps > fr.i.maxSteps {
+				panic(engineAbort{psInconclusive, "step budget exhausted in C kernel"})
+			}
+			switch in.op {
+			case "ret":
+				if in.toks[1] == "void" {
+					return nil
+				}
+				return lf.operand(in.toks[1], in.toks[2])
+			case "br":
+				if in.toks[1] == "label" {
+					next = strings.TrimPrefix(in.toks[2], "%")
+				} else {
+					c := lf.operand("i1", in.toks[2])
+					if decideBoolFr(fr, c) {
+						next = strings.TrimPrefix(in.toks[4], "%")
+					} else {
+						next = strings.TrimPrefix(in.toks[6], "%")
+					}
+				}
+			default:
+				lf.regs[in.dst] = lf.exec(in)
+			}
+			if next != "" {
+				break
+			}
+		}
+		if next == "" {
+			panic(engineAbort{psEngineError, "llvm: block without terminator"})
+		}
+		prev, cur = cur, next
+	}
+}
+
+func decideBoolFr(fr *frame, c value) bool {
+	if s, ok := c.(sv); ok {
+		fr.i.branches++
+		return fr.i.ctx.branch(s.t, "c-br")
+	}
+	return c.(bool)
+}
+
+var llBin = map[string]token.Token{
+	"add": token.ADD, "sub": token.SUB, "mul": token.MUL, "and": token.AND, "or": token.OR, "xor": token.XOR,
+	"shl": token.SHL, "lshr": token.SHR, "udiv": token.QUO, "urem": token.REM,
+}
+
+func (lf *llFrame) exec(in llInstr) value {
+	t := in.toks
+	// drop flags like nuw nsw exact inbounds
+	var tk []string
+	for _, x := range t {
+		switch x {
+		case "nuw", "nsw", "exact", "inbounds", "noundef", "nonnull", "tail", "notail":
+			continue
+		}
+		tk = append(tk, x)
+	}
+	t = tk
+	switch t[0] {
+	case "add", "sub", "mul", "and", "or", "xor", "shl", "lshr", "udiv", "urem":
+		ty := t[1]
+		x, y := lf.operand(ty, t[2]), lf.operand(ty, t[3])
+		if ty == "i1" {
+			switch t[0] {
+			case "and":
+				return binopBool(token.LAND, x, y)
+			case "or":
+				return binopBool(token.LOR, x, y)
+			case "xor":
+				return binop(token.NEQ, nil, x, y)
+			}
+		}
+		return binop(llBin[t[0]], nil, x, y)
+	case "ashr", "sdiv", "srem":
+		ty := t[1]
+		w := llWidth(ty)
+		x, y := toKind(lf.operand(ty, t[2]), sKind(w)), lf.operand(ty, t[3])
+		var r value
+		switch t[0] {
+		case "ashr":
+			r = binop(token.SHR, nil, x, y)
+		case "sdiv":
+			r = binop(token.QUO, nil, x, toKind(y, sKind(w)))
+		default:
+			r = binop(token.REM, nil, x, toKind(y, sKind(w)))
+		}
+		return toKind(r, uKind(w))
+	case "zext":
+		// zext ty v to ty2
+		if t[1] == "i1" {
+			b := lf.operand("i1", t[2])
+			w := llWidth(t[4])
+			if s, ok := b.(sv); ok {
+				bb := s.t.B
+				return mkSV(bb.Ite(s.t, bb.Const(w, 1), bb.Const(w, 0)), uKind(w))
+			}
+			if b.(bool) {
+				return llConst(w, 1)
+			}
+			return llConst(w, 0)
+		}
+		return toKind(lf.operand(t[1], t[2]), uKind(llWidth(t[4])))
+	case "sext":
+		w0, w1 := llWidth(t[1]), llWidth(t[4])
+		return toKind(toKind(toKind(lf.operand(t[1], t[2]), sKind(w0)), sKind(w1)), uKind(w1))
+	case "trunc":
+		return toKind(lf.operand(t[1], t[2]), uKind(llWidth(t[4])))
+	case "icmp":
+		pred, ty := t[1], t[2]
+		x, y := lf.operand(ty, t[3]), lf.operand(ty, t[4])
+		if px, ok := x.(llptr); ok {
+			py := y.(llptr)
+			switch pred {
+			case "eq":
+				return px.off == py.off && sameMem(px.mem, py.mem) && px.glob == py.glob
+			case "ne":
+				return !(px.off == py.off && sameMem(px.mem, py.mem) && px.glob == py.glob)
+			case "ult":
+				return px.off < py.off
+			case "ule":
+				return px.off <= py.off
+			case "ugt":
+				return px.off > py.off
+			case "uge":
+				return px.off >= py.off
+			}
+			panic(engineAbort{psInconclusive, "llvm: pointer compare " + pred})
+		}
+		w := llWidth(ty)
+		if pred[0] == 's' {
+			x, y = toKind(x, sKind(w)), toKind(y, sKind(w))
+		}
+		switch pred {
+		case "eq":
+			return binop(token.EQL, nil, x, y)
+		case "ne":
+			return binop(token.NEQ, nil, x, y)
+		case "ult", "slt":
+			return binop(token.LSS, nil, x, y)
+		case "ule", "sle":
+			return binop(token.LEQ, nil, x, y)
+		case "ugt", "sgt":
+			return binop(token.GTR, nil, x, y)
+		case "uge", "sge":
+			return binop(token.GEQ, nil, x, y)
+		}
+	case "getelementptr":
+		// getelementptr i8, i8* %p, i64 %idx        | getelementptr [256 x i32], [256 x i32]* @tab, i64 0, i64 %idx
+		if t[1] == "[" {
+			// [ N x iW ] [ N x iW ] * @g i64 0 i64 %idx
+			// tokens: [ N x iW ] [ N x iW ] * @g i64 0 i64 idx  -> find '@'
+			var g string
+			var k int
+			for k = range t {
+				if strings.HasPrefix(t[k], "@") {
+					g = t[k][1:]
+					break
+				}
+			}
+			idx := lf.operand(t[k+3], t[k+4])
+			if _, ok := idx.(sv); ok {
+				return llptrSym{glob: g, idx: idx}
+			}
+			return llptr{glob: g, off: int(asInt64(idx))}
+		}
+		base := lf.operand("ptr", t[3])
+		idx := lf.operand(t[4], t[5])
+		p, ok := base.(llptr)
+		if !ok {
+			panic(engineAbort{psInconclusive, "llvm: gep base"})
+		}
+		n := int(asInt64(toKind(idx, types.Int64)))
+		if t[1] != "i8" {
+			panic(engineAbort{psInconclusive, "llvm: gep over " + t[1]})
+		}
+		p.off += n
+		return p
+	case "load":
+		// load i8, i8* %p, align 1
+		ty := t[1]
+		switch p := lf.operand("ptr", t[3]).(type) {
+		case llptr:
+			if p.glob != "" {
+				tab := lf.ck.globals[p.glob]
+				if p.off < 0 || p.off >= len(tab) {
+					panic(memError("C kernel reads past a constant table"))
+				}
+				return tab[p.off]
+			}
+			full := p.mem[:cap(p.mem)]
+			w := llWidth(ty) / 8
+			if p.off < 0 || p.off+w > len(full) {
+				panic(memError(fmt.Sprintf("C kernel reads %d byte(s) at offset %d of a %d-byte object", w, p.off, len(full))))
+			}
+			if w == 1 {
+				v := full[p.off]
+				if _, bad := v.(poison); bad {
+					panic(memError("C kernel reads freed memory"))
+				}
+				return v
+			}
+			return leCombine(full[p.off:p.off+w], uKind(8*w))
+		case llptrSym:
+			return symRead(lf.fr, lf.ck.globals[p.glob], p.idx)
+		}
+	case "call":
+		// call i32 @bcmp ( i8* %a i8* %b i64 %n )
+		var fn string
+		var k int
+		for k = range t {
+			if strings.HasPrefix(t[k], "@") {
+				fn = t[k][1:]
+				break
+			}
+		}
+		var args []value
+		for j := k + 2; j+1 < len(t) && t[j] != ")"; j += 2 {
+			args = append(args, lf.operand(t[j], t[j+1]))
+		}
+		switch fn {
+		case "bcmp", "memcmp":
+			a, b := args[0].(llptr), args[1].(llptr)
+			n := int(asInt64(args[2]))
+			fa, fb := a.mem[:cap(a.mem)], b.mem[:cap(b.mem)]
+			if a.off+n > len(fa) || b.off+n > len(fb) || a.off < 0 || b.off < 0 {
+				panic(memError(fmt.Sprintf("memcmp of %d bytes runs past the end of an object", n)))
+			}
+			x, y := fa[a.off:a.off+n], fb[b.off:b.off+n]
+			checkPoison(x)
+			checkPoison(y)
+			eq := bytesEq(x, y)
+			if fn == "memcmp" && !isTrueVal(eq) {
+				// sign only matters when callers test <0/>0; kernels here test ==0
+			}
+			w := llWidth(t[1])
+			if s, ok := eq.(sv); ok {
+				bb := s.t.B
+				return mkSV(bb.Ite(s.t, bb.Const(w, 0), bb.Const(w, 1)), uKind(w))
+			}
+			if eq.(bool) {
+				return llConst(w, 0)
+			}
+			return llConst(w, 1)
+		}
+		panic(engineAbort{psInconclusive, "llvm: call to " + fn})
+	case "select":
+		c := lf.operand("i1", t[2])
+		x, y := lf.operand(t[3], t[4]), lf.operand(t[5], t[6])
+		if s, ok := c.(sv); ok {
+			bb := s.t.B
+			tx, k := termOf(bb, x)
+			ty, _ := termOf(bb, y)
+			return mkSV(bb.Ite(s.t, tx, ty), k)
+		}
+		if c.(bool) {
+			return x
+		}
+		return y
+	case "bitcast":
+		return lf.operand(t[1], t[2])
+	}
+	panic(engineAbort{psInconclusive, "llvm: unsupported instruction: " + in.text})
+}
+
+type llptrSym struct {
+	glob string
+	idx  value
+}
+
+func isTrueVal(v value) bool { b, ok := v.(bool); return ok && b }
+
+func binopBool(op token.Token, x, y value) value {
+	if isSym(x) || isSym(y) {
+		return symBinop(op, x, y)
+	}
+	if op == token.LAND {
+		return x.(bool) && y.(bool)
+	}
+	return x.(bool) || y.(bool)
+}
+
+// cPtrArg converts a Go-side pointer value passed to a C function into an llptr.
+func cPtrArg(v value) llptr {
+	switch p := v.(type) {
+	case wordPtr:
+		return llptr{mem: p.mem}
+	case unsafePtr:
+		if p.mem == nil && p.cell == nil {
+			return llptr{}
+		}
+		if p.mem != nil {
+			return llptr{mem: p.mem}
+		}
+	}
+	panic(engineAbort{psInconclusive, fmt.Sprintf("pointer of kind %T passed to C", v)})
+}
+
+func init() {
+	reg("cgo:_Cfunc_crc32_write", func(fr *frame, args []value) value {
+		ck := fr.i.env.CKernels
+		if ck == nil {
+			panic(engineAbort{psInconclusive, "C kernels not loaded"})
+		}
+		if _, ok := fr.i.summaries["cgo:crc32_write"]; ok {
+			p := cPtrArg(args[1])
+			return crcFoldSummary(fr, toKind(args[0], types.Uint32), p.mem, int(asInt64(args[2])))
+		}
+		return ck.call(fr, "crc32_write", []value{toKind(args[0], types.Uint32), cPtrArg(args[1]), toKind(args[2], types.Uint32)})
+	})
+	reg("cgo:_Cfunc_find", func(fr *frame, args []value) value {
+		ck := fr.i.env.CKernels
+		if ck == nil {
+			panic(engineAbort{psInconclusive, "C kernels not loaded"})
+		}
+		r := ck.call(fr, "find", []value{cPtrArg(args[0]), cPtrArg(args[1]), toKind(args[2], types.Uint32), toKind(args[3], types.Uint32), toKind(args[4], types.Uint32)})
+		return toKind(r, types.Int32)
+	})
+}
